@@ -33,26 +33,22 @@ _UND_ADD = ('add/sub: proved is that the result is the mode-correct rounding of 
             'is identical. NOT proved: that this unit is never above 1 ulp at precision p of the result (needs the cancellation '
             'argument: at most one leading digit is lost), the p+1 digit bound, and "representable in p digits => Exact". '
             'digits_ub (f32 estimate) enters through an ASSUMED enclosure digits <= digits_ub <= 2*digits+2. '
-            'Operands with more digits than the precision are outside the contract (property domain).')
-_KNOWN_ADD = ('KNOWN DEFECT excluded by precondition (add_defect_region): base 2, HalfAway, true addition, larger-exponent operand '
-              'shorter than p digits and the other operand far below the rounding position: 1*2^4 + 1*2^-26 at p=6 gives '
-              '33*2^-1 (error 1 ulp); the far-smaller operand is replaced by a sentinel of exactly 1/2 unit')
+            'Operands with more digits than the precision are outside the contract (property domain). The far-smaller-operand '
+            'sentinel (base 2 / HalfAway defect, proposed fix F1) is proved to round like the true sum in every base and mode.')
+
 
 _UND_CMP = ('float cmp: the precision shortcut (case 4 of repr_cmp_same_base) is sound only for values with at most p+1 digits '
-            'at precision p (taken as precondition: C03 grants it for results of arithmetic); FBig values with more digits are '
-            'reachable through the public API (`with_precision(p)` does not round a source of unlimited precision) and then '
-            'cmp disagrees with the mathematical order: from_parts(12345,0).with_precision(0).with_precision(2) vs 1*10^3 '
-            'compares Less (GENUINE DEFECT, root cause in with_precision, see known finding of unit float_conv). '
-            'digits_ub shortcut (case 5): sound under the ASSUMED enclosure digits <= digits_ub of the f32 estimate. '
-            'Infinities are assumed canonical (exponent +1/-1, as every producer creates them); == assumes normalized reprs '
-            '(invariant of Repr::new). Not covered: PartialOrd for Repr (one-line wrapper of Ord), repr_cmp_ubig / repr_cmp_ibig.')
+            'at precision p (taken as precondition: C03 grants it for results of arithmetic, constructors derive the precision '
+            'from the digit count, with_precision rounds unlimited sources since /repo 73390f4; FBig::from_repr demands it by '
+            'debug_assert only). digits_ub shortcut (case 5): sound under the ASSUMED enclosure digits <= digits_ub of the f32 '
+            'estimate. Infinities are assumed canonical (exponent +1/-1, as every producer creates them); == assumes '
+            'normalized reprs (invariant of Repr::new). Not covered: PartialOrd for Repr (one-line wrapper of Ord), '
+            'repr_cmp_ubig / repr_cmp_ibig.')
 
 _UND_SQRT = ('Context::sqrt: proved (operand fits p digits) that the result is ONE correct rounding of the real root to p digits '
-             '(sqrt_post), OUTSIDE the KNOWN DEFECT region "even digit count and odd exponent" (excluded by precondition for '
-             'every mode): there the scaled radicand has 2p+1 digits, the p+1-digit integer root is rounded to an integer and '
-             'then to p digits: sqrt(11*2^-1) at p=4 under HalfEven/HalfAway gives 5*2^-1 instead of 9*2^-2 (reproduced '
-             'natively; directed modes compose correctly but are not proved there). UBig::sqrt_rem is a trusted stub '
-             '(s*s + r == n, 0 <= r <= 2s). Operands longer than p digits (low part dropped into the tie test) not covered.')
+             '(sqrt_post) for every digit/exponent parity (the double rounding for "even digit count, odd exponent" was '
+             'repaired in /repo, proposed fix F2). UBig::sqrt_rem is a trusted stub (s*s + r == n, 0 <= r <= 2s). Operands '
+             'longer than p digits (low part dropped into the tie test) not covered.')
 
 _UND_DIV = ('division: Context::{repr_div, div, inv} proved (div_post: mode-correct rounding of the exact quotient at a unit where '
             'the truncated quotient has p or p+1 digits, Exact iff the division terminates, truthful flag) for a dividend that '
@@ -61,7 +57,7 @@ _UND_DIV = ('division: Context::{repr_div, div, inv} proved (div_post: mode-corr
             'arms), DivEuclid/RemEuclid, division by zero (panics inside dashu-int).')
 
 PROP_UNITS = {
-    'C03': {'verus': ['float_mul', 'float_add', 'float_add_ops', 'float_sqrt', 'float_div'], 'undecided': [_UND_MUL, _UND_ADD, _KNOWN_ADD, _UND_SQRT, _UND_DIV]},
+    'C03': {'verus': ['float_mul', 'float_add', 'float_add_ops', 'float_sqrt', 'float_div'], 'undecided': [_UND_MUL, _UND_ADD, _UND_SQRT, _UND_DIV]},
     'C05': {'verus': ['float_cmp'], 'undecided': [_UND_CMP]},
     'C15': {'verus': ['float_mul', 'float_add_ops']},
     'C16': {'verus': ['float_mul', 'float_mul_inf', 'float_add', 'float_add_ops', 'float_add_inf', 'float_cmp', 'float_sqrt', 'float_sqrt_panic', 'float_div']},
